@@ -17,6 +17,8 @@ OP = "unit_scaling/optim.py"
 
 
 def snapshot(x: Any) -> Any:
+    if isinstance(x, tuple):
+        return tuple(snapshot(v) for v in x)
     if isinstance(x, dict):
         return {k: snapshot(v) for k, v in x.items()}
     if isinstance(x, list):
@@ -67,6 +69,13 @@ def check(report: Report, repo: Repo) -> None:
     p1, p2, p3, pu = mk()
     scenarios.append(("group-lr-only", [{"params": [p2]}, {"params": [p1], "lr": glr, "weight_decay": gwd}], dict(lr=lr), [(p2, lr, 0, {}), (p1, glr, gwd, {})]))
 
+    p1, p2, p3, pu = mk()
+    # an explicit zero decay in a group ("no decay for biases") must override a non-zero global decay
+    scenarios.append(("explicit-zero-decay-group", [{"params": [p2], "weight_decay": 0}, {"params": [p1]}], dict(lr=lr, weight_decay=wd), [(p2, lr, 0, {}), (p1, lr, wd, {})]))
+    p1, p2, p3, pu = mk()
+    zlr = sp.Integer(0)
+    scenarios.append(("generator-like tuple of groups", ({"params": [p1], "nesterov": O("nesterov")}, {"params": [p3, p2], "lr": glr}), dict(lr=lr, weight_decay=wd), [(p1, lr, wd, {"nesterov": None}), (p3, glr, wd, {}), (p2, glr, wd, {})]))
+
     n_groups = 0
     for sname, params, kw, expect in scenarios:
         for indep in (True, False):
@@ -92,7 +101,8 @@ def check(report: Report, repo: Repo) -> None:
                 okp = isinstance(g.get("params"), list) and len(g["params"]) == 1 and g["params"][0] is p
                 report.add("R1-groups", f"{cons}::order", okp, f"{lab}: group {i} must hold exactly input parameter #{i} ({fmt(p)})", fmt(g.get("params")), fmt([p]))
                 keys = set(g) - {"params", "lr", "weight_decay"}
-                okk = keys == set(extra) and all(g[k] is extra[k] for k in extra) and {"lr", "weight_decay"} <= set(g)
+                src_group = next((e_ for e_ in params if isinstance(e_, dict) and any(q is p for q in e_.get("params", []))), {})
+                okk = keys == set(extra) and all((g[k] is extra[k]) or (extra[k] is None and g[k] is src_group.get(k)) for k in extra) and {"lr", "weight_decay"} <= set(g)
                 report.add("R2-keys", f"{cons}::extra-keys", okk, f"{lab}: group {i} carries over exactly the other options of its source group", sorted(map(str, set(g))), sorted(["params", "lr", "weight_decay", *extra]))
                 tagged = "mup_type" in p.attrs
                 exp_lr = TM._mul(base_lr, factor(p)) if tagged else base_lr
